@@ -10,8 +10,12 @@ from concurrent.futures import ThreadPoolExecutor
 
 VERIF = os.path.dirname(os.path.dirname(os.path.abspath(__file__)))
 REPO = os.environ.get('PDL_REPO', '/repo')
-TARGET = os.path.join(VERIF, 'target')
-WORK = os.path.join(VERIF, 'work')
+# an alternative repository root (used only to try seeded changes in scratch worktrees without
+# touching /repo) gets its own build, work and output directories
+_ALT = '' if REPO == '/repo' else 'alt_' + hashlib.sha1(REPO.encode()).hexdigest()[:8]
+TARGET = os.path.join(VERIF, 'target', _ALT) if _ALT else os.path.join(VERIF, 'target')
+WORK = os.path.join(VERIF, 'work', _ALT) if _ALT else os.path.join(VERIF, 'work')
+OUT = os.path.join(VERIF, 'work', _ALT, 'out') if _ALT else VERIF
 
 ENV = dict(os.environ, CARGO_NET_OFFLINE='true', CARGO_TERM_COLOR='never')
 
